@@ -114,11 +114,34 @@ fn gen_integer(t: &mut Tape) -> Lit {
     let ty = if t.ratio(1, 3) { Some(t.pick(&INT_TY).to_string()) } else { None };
     let mut digits = if over {
         // more than 128 bits: 40..45 decimal digits or the based equivalent
-        match base {
-            10 => format!("4{}", "0123456789".repeat(4)),
-            16 => format!("1{}", "0".repeat(32)),
-            8 => format!("4{}", "0".repeat(42)),
-            _ => format!("1{}", "0".repeat(128)),
+        // (the smallest such number, or - half of the time - random digits / the largest digit all
+        // the way: a digit loop that detects overflow by a wrap-around test misses most of these)
+        let (first, more, alphabet): (&[u8], usize, &[u8]) = match base {
+            10 => (b"123456789", 39 + t.below(6), b"0123456789"),
+            16 => (b"123456789ABCDEFabcdef", 32 + t.below(8), b"0123456789ABCDEFabcdef"),
+            8 => (b"4567", 42 + t.below(8), b"01234567"),
+            _ => (b"1", 128 + t.below(12), b"01"),
+        };
+        match t.below(4) {
+            0 | 1 => match base {
+                10 => format!("4{}", "0123456789".repeat(4)),
+                16 => format!("1{}", "0".repeat(32)),
+                8 => format!("4{}", "0".repeat(42)),
+                _ => format!("1{}", "0".repeat(128)),
+            },
+            2 => {
+                let top = *alphabet.last().unwrap() as char;
+                let top = if base == 16 && t.flag() { 'F' } else { top };
+                std::iter::repeat(top).take(more + 1).collect()
+            }
+            _ => {
+                let mut d = String::new();
+                d.push(first[t.below(first.len())] as char);
+                for _ in 0..more {
+                    d.push(alphabet[t.below(alphabet.len())] as char);
+                }
+                d
+            }
         }
     } else {
         to_base(mag, base)
